@@ -64,9 +64,9 @@ Definition lcmv (K : nat) (X : nat -> nat -> cxT) (t : nat -> cxT) (d : nat) : c
   csumO P K (fun k => cmul P (X k d) (t k)).
 
 (* ---------------- get_mvdr_vector_souden (beamformer.py:627-698) ----------------
-   phi = stable_solve(Pn, Px); mat = phi / max(Re trace phi, eps); w = mat[:, ref] *)
+   phi = stable_solve(Pn, Px); mat = phi / max(|trace phi|, eps); w = mat[:, ref] *)
 Definition souden (phi : nat -> nat -> cxT) (eps : T) (r i : nat) : cxT :=
-  cscale P (oinv P (omax P (fst (bf_trace phi)) eps)) (phi i r).
+  cscale P (oinv P (omax P (cabs P (bf_trace phi)) eps)) (phi i r).
 
 (* ---------------- get_wmwf_vector (beamformer.py:701-753), numeric distortion weight ----------
    filter = phi / (mu + trace phi); w = filter[:, ref] *)
